@@ -150,7 +150,27 @@ def dom_nonstring(ctx):
                 yield (dt, v, cs, icvn)
 
 
-DOMAINS = [dom_numeric, dom_dates, dom_rd8, dom_time, dom_chars, dom_nonstring]
+def dom_unicode_digits(ctx):
+    """valid values of every digit-based type with one digit, or every digit, written in another Unicode digit alphabet (str.isdigit / int()
+    accept several of them) or as a digit-like character that int() refuses: none belongs to the value language, none may raise"""
+    alphabets = ['\uff10\uff11\uff12\uff13\uff14\uff15\uff16\uff17\uff18\uff19', '\u0660\u0661\u0662\u0663\u0664\u0665\u0666\u0667\u0668\u0669',
+                 '\u0966\u0967\u0968\u0969\u096a\u096b\u096c\u096d\u096e\u096f']
+    odd = ['\u00b2', '\u2460', '\u2167', '\u00bd', '\u2080']
+    base = {'D8': ['20240229', '19991231'], 'DT': ['20240229', '202402291230', '240229'], 'D6': ['240229'], 'RD8': ['20240101-20240229'],
+            'TM': ['1230', '123059', '12305999'], 'N0': ['123', '-5'], 'N2': ['1234'], 'R': ['1.5', '-0.25', '12']}
+    for dt, vals in sorted(base.items()):
+        for v in vals:
+            pos = [i for i, c in enumerate(v) if c.isascii() and c.isdigit()]
+            for alpha in alphabets:
+                yield (dt, ''.join(alpha[int(c)] if (c.isascii() and c.isdigit()) else c for c in v), 'B', '00401')
+                for i in (pos[0], pos[len(pos) // 2], pos[-1]):
+                    yield (dt, v[:i] + alpha[int(v[i])] + v[i + 1:], 'E', '00501')
+            for o in odd:
+                for i in (pos[0], pos[-1]):
+                    yield (dt, v[:i] + o + v[i + 1:], 'B', '00401')
+
+
+DOMAINS = [dom_numeric, dom_dates, dom_rd8, dom_time, dom_chars, dom_nonstring, dom_unicode_digits]
 
 
 def evaluate(ctx, fn, dt, v, cs, icvn, seen):
